@@ -22,6 +22,7 @@ func runC15(r *Run) {
 	r.rule("C15.R4", "notifications: end(n) before the increment in the later-tick arm only; start(n) unconditionally after the increment; one of each per tick; record stored between them", 6)
 	r.rule("C15.R5", "fan-out: every subscriber, slice order, same arguments; registration order distribution, operator, dogfood, mint, AVS", 4)
 	r.rule("C15.R6", "who may notify / who may write epoch records", 3)
+	r.rule("C15.R7", "AddEpochInfo fills a field with its default only when that same field is unset, validates first and refuses duplicates", 4)
 
 	v := w.View("x/epochs/keeper", "Keeper.BeginBlocker")
 	if v == nil {
@@ -306,6 +307,52 @@ func runC15(r *Run) {
 		r.check(okArg, "C15.R4", "store|the-updated-record", v.pos(setCall), "the stored record is the updated one", "setEpochInfoUnchecked is not given "+info)
 		nSets := len(v.Calls(cb.Body, byName("setEpochInfoUnchecked")))
 		r.check(nSets == 1, "C15.R4", "store|once", v.pos(cb), "one store per tick", fmt.Sprintf("%d stores in the callback", nSets))
+	}
+	// ---- R7
+	if av := w.View("x/epochs/keeper", "Keeper.AddEpochInfo"); av == nil {
+		r.bad("C15.R7", "anchor|AddEpochInfo", "-", "anchor", "not found")
+	} else {
+		r.saw(av.ID())
+		ip := paramName(av, 1)
+		nFill := 0
+		ast.Inspect(av.Decl.Body, func(n ast.Node) bool {
+			as, ok := n.(*ast.AssignStmt)
+			if !ok || len(as.Lhs) != 1 {
+				return true
+			}
+			sel, isSel := stripParens(as.Lhs[0]).(*ast.SelectorExpr)
+			if !isSel || exprString(sel.X) != ip {
+				return true
+			}
+			nFill++
+			fld := sel.Sel.Name
+			// the guard tests the same field for its zero value
+			okG := false
+			for _, f := range av.factsAt(as, false) {
+				at := stripParens(f.Atom)
+				if c, isC := at.(*ast.CallExpr); isC && f.Truth {
+					if recv, nm, _, isM := methodCall(c); isM && nm == "IsZero" && exprString(recv) == ip+"."+fld {
+						okG = true
+					}
+				}
+				if cm, isCmp := factCmp(f); isCmp && cm.Op == "==" && exprString(cm.L) == ip+"."+fld && exprString(cm.R) == "0" {
+					okG = true
+				}
+			}
+			r.check(okG, "C15.R7", "add|default-only-if-unset|"+fld, av.pos(as), "the configured "+fld+" is kept; the default is used only when "+fld+" itself is unset", "AddEpochInfo overwrites "+fld+" under a condition that does not test "+fld+" for its zero value: a configured start (future or past) is replaced by the registration block's values")
+			return true
+		})
+		if nFill < 2 {
+			r.bad("C15.R7", "add|fills", av.pos(av.Decl), "default fills present", fmt.Sprintf("%d default assignments found", nFill))
+		}
+		okVal, okDup := false, false
+		for _, c := range av.CallsNamed("setEpochInfoUnchecked") {
+			fs := av.factsOf(c)
+			okVal = fs.call("Validate", true, nil)
+			okDup = fs.call("Has", false, func(cc *ast.CallExpr) bool { return strings.Contains(exprString(cc.Args[0]), ip+".Identifier") })
+		}
+		r.check(okVal, "C15.R7", "add|validated", av.pos(av.Decl), "only validated epoch infos are stored", "setEpochInfoUnchecked is not dominated by Validate() == nil")
+		r.check(okDup, "C15.R7", "add|no-duplicate", av.pos(av.Decl), "an identifier is registered once", "setEpochInfoUnchecked is not dominated by !Has(identifier)")
 	}
 	// ---- R5
 	for _, m := range []string{"AfterEpochEnd", "BeforeEpochStart"} {
